@@ -248,8 +248,24 @@ class _HardTimeout(BaseException):
   pass
 
 
+def fresh_stdio():
+  """Workers are forked from a pool-maintenance *thread* of the parent (maxtasksperchild=1); if the main thread holds
+  the lock of a stdio buffer at that instant the child inherits it locked and blocks forever on its first write
+  (observed as a hung run with idle workers).  Fresh stream objects have fresh locks."""
+  import io
+  try:
+    sys.stdout = io.TextIOWrapper(io.FileIO(1, 'w', closefd=False), line_buffering=True, errors='replace')
+    sys.stderr = io.TextIOWrapper(io.FileIO(2, 'w', closefd=False), line_buffering=True, errors='replace')
+  except Exception:  # pylint: disable=broad-except
+    pass
+
+
 def run_cube(task):
   """task: dict(module, fn, tag, pre, timeout, path_timeout, twin_timeout, scratch, skip_twin)."""
+  fresh_stdio()
+  if os.environ.get('VERIF_DEBUG_HANG'):
+    import faulthandler
+    faulthandler.dump_traceback_later(int(os.environ['VERIF_DEBUG_HANG']), exit=True)
   install_patches()
   t0 = time.time()
   out = dict(tag=task['tag'], pre=list(task['pre']), status='error', message='', cex=None,
